@@ -525,6 +525,43 @@ type DeviatedEntry struct {
 	*Entry
 }
 
+// orderedDeviate is one deviate statement of a deviation and its type.
+type orderedDeviate struct {
+	dt deviationType
+	dv []*Entry // always of length 1
+}
+
+// orderedDeviates returns the deviate statements of d in the order in which
+// they were written. Entry.Deviate groups them by type, and a map has no
+// order, but RFC 7950 7.20.3 applies them in sequence: "delete default x"
+// followed by "add default y" is fine, the reverse is an error.
+func (d *DeviatedEntry) orderedDeviates() []orderedDeviate {
+	var ods []orderedDeviate
+	for dt, dv := range d.Deviate {
+		for _, devSpec := range dv {
+			ods = append(ods, orderedDeviate{dt, []*Entry{devSpec}})
+		}
+	}
+	pos := func(od orderedDeviate) (int, int) {
+		if n := od.dv[0].Node; n != nil && n.Statement() != nil {
+			return n.Statement().line, n.Statement().col
+		}
+		return 0, 0
+	}
+	sort.SliceStable(ods, func(i, j int) bool {
+		li, ci := pos(ods[i])
+		lj, cj := pos(ods[j])
+		if li != lj {
+			return li < lj
+		}
+		if ci != cj {
+			return ci < cj
+		}
+		return ods[i].dt < ods[j].dt
+	})
+	return ods
+}
+
 // semCheckMaxElements checks whether the max-element argument is valid, and returns the specified value.
 func semCheckMaxElements(v *Value) (uint64, error) {
 	if v == nil || v.Name == "unbounded" {
@@ -1160,8 +1197,9 @@ func (e *Entry) ApplyDeviate(deviateOpts ...DeviateOpt) []error {
 			continue
 		}
 
-		for dt, dv := range d.Deviate {
-			for _, devSpec := range dv {
+		for _, od := range d.orderedDeviates() {
+			dt := od.dt
+			for _, devSpec := range od.dv {
 				switch dt {
 				case DeviationAdd, DeviationReplace:
 					if devSpec.Config != TSUnset {
